@@ -69,7 +69,9 @@ def lower (s : Str) : Str := s.map Char.toLower
 
 def eqFold (a b : Str) : Bool := lower a == lower b
 
-def isSp (c : Char) : Bool := c == ' ' || c == '\t' || c == '\n' || c == '\r'
+def isSp (c : Char) : Bool :=
+  c == ' ' || c == '\t' || c == '\n' || c == Char.ofNat 11 || c == Char.ofNat 12 || c == '\r'
+    || c == Char.ofNat 0x85 || c == Char.ofNat 0xA0
 
 def trimSpace (s : Str) : Str := ((s.dropWhile isSp).reverse.dropWhile isSp).reverse
 
